@@ -171,6 +171,9 @@ class NameValuePairList(ParsableBase, Serializable):
             composer.compose_string(name)
             if value is not None:
                 composer.compose_separator('=')
+                if value != value.strip(' \t') or self.get_separator() in value:
+                    # only a quoted-string can carry a separator or white space at its ends
+                    value = '"{}"'.format(value)
                 composer.compose_string(value)
 
             if item_number + 1 < len(self.value):
